@@ -174,6 +174,60 @@ pub fn has_non_ascii_ingredient(spec: &crate::spec::Spec) -> bool {
   })
 }
 
+/// A short random call history applied to the object under test before the
+/// checked call (half of the cases have none): the statement of every
+/// single-call property also covers objects that were used before, and what
+/// differs is the state of the caches (CachedSource maps / hash, lazily
+/// decoded buffers, ReplaceSource's sorted order).
+/// 0 stream(columns) 1 stream(lines) 2 map(columns) 3 map(lines) 4 source
+/// 5 hash 6 map(columns) of a clone 7 buffer + size
+pub fn gen_prelude(rng: &mut Rng) -> Vec<u8> {
+  if rng.chance(1, 2) {
+    return Vec::new();
+  }
+  (0..rng.range(1, 3)).map(|_| rng.below(8) as u8).collect()
+}
+
+pub fn run_prelude(case: &Value, src: &rspack_sources::BoxSource, obs: &mut crate::obs::Obs) {
+  use rspack_sources::{MapOptions, Source};
+  let Some(ops) = case.get("prelude").and_then(|v| v.as_array()) else {
+    return;
+  };
+  for op in ops {
+    obs.count("prelude_calls", 1);
+    match op.as_u64().unwrap_or(0) {
+      0 => {
+        let _ = crate::record::record(src, &MapOptions::new(true));
+      }
+      1 => {
+        let _ = crate::record::record(src, &MapOptions::new(false));
+      }
+      2 => {
+        let _ = src.map(&MapOptions::new(true));
+      }
+      3 => {
+        let _ = src.map(&MapOptions::new(false));
+      }
+      4 => {
+        let _ = src.source();
+      }
+      5 => {
+        let _ = crate::spec::stable_hash(src);
+      }
+      6 => {
+        let c: Box<dyn Source> = dyn_clone::clone_box(&**src);
+        let _ = c.map(&MapOptions::new(true));
+      }
+      _ => {
+        let _ = (src.buffer().len(), src.size());
+      }
+    }
+  }
+  if !ops.is_empty() {
+    obs.class("object_used_before_the_checked_call");
+  }
+}
+
 pub fn spec_of(case: &Value) -> crate::spec::Spec {
   serde_json::from_value(case["spec"].clone()).expect("case.spec")
 }
